@@ -774,6 +774,9 @@ func (fr *frame) unop(t *ssa.UnOp, st *State, reach string) {
 		}
 		vt := Term{ft.define(name, v.Sort, v.S), v.Sort}
 		ft.assumeAllocated(st, reach, vt)
+		if ft.e.elemNonNil(lv, t.Type()) {
+			ft.assume(reach, not(eq(vt.S, "null")))
+		}
 		fr.vals[t] = Val{T: vt}
 		// known closure stored in a cell? track through simple cells
 		if addr.T.S != "" {
@@ -847,6 +850,11 @@ func (fr *frame) store(addr Val, av ssa.Value, v Val, vt types.Type, st *State, 
 		return
 	}
 	val := ft.termOf(v, vt)
+	if ft.e.wantSafety(fr) && ft.e.elemNonNil(lv, vt) {
+		if _, fresh := vv(v, val); !fresh {
+			fr.oblig("safe/nilstore", []string{"C20"}, pos, ft.e.lineText(pos), reach, not(eq(val.S, "null")))
+		}
+	}
 	ft.storeLV(st, lv, val)
 	if v.Clo != nil && addr.T.S != "" {
 		if ft.e.cellClos[ft] == nil {
@@ -1321,4 +1329,30 @@ func (fr *frame) runDeferred(d *deferred, st *State, reach string, xedges *[]inE
 	*st = *nst
 	st.defers = defers
 	return ft.define("reach_after_defer", SBool, nreach)
+}
+
+// vv: is the stored value trivially non-nil (fresh allocation)?
+func vv(v Val, t Term) (Term, bool) {
+	return t, false
+}
+
+// elemNonNil: container invariant - elements of slices (and arrays backing
+// them) whose element type is a pointer to a repository struct are never nil.
+// Assumed at loads, checked at stores (safe/nilstore).
+func (e *Engine) elemNonNil(lv *LValue, t types.Type) bool {
+	if lv == nil || !strings.HasPrefix(lv.Heap, "E$") || len(lv.Path) > 0 {
+		return false
+	}
+	pt, ok := t.Underlying().(*types.Pointer)
+	if !ok {
+		return false
+	}
+	n, ok := pt.Elem().(*types.Named)
+	if !ok || n.Obj().Pkg() == nil || !strings.HasPrefix(n.Obj().Pkg().Path(), repoPkgPrefix) {
+		return false
+	}
+	if _, isStruct := n.Underlying().(*types.Struct); !isStruct {
+		return false
+	}
+	return !e.nilableElems[typeName(t)]
 }
